@@ -403,7 +403,7 @@ def workflow(rec, case, tier, max_perms=None):
             st2, _ = outcome(c2.sign_with_private_keys, privs)
             rec.check("C10.c.sign-entrypoints-agree", st2 == "ok" and c2.serialize() == raw,
                       {"case": label, "psbt": b64(base)}, "sign_with_private_keys result differs from sign")
-        raw_u = inject_unknowns(raw, b"-s%d" % k) if False else raw
+        raw_u = raw
         po = roundtrip_checks(rec, raw_u, "signed-by-%d" % k, label)
         if po is None:
             return
@@ -587,7 +587,11 @@ def job_segwit_flag(seed, tier):
     return rec.result()
 
 
-def job_helper(seed, tier):
+def job_helper_c11(seed, tier):
+    return job_helper(seed, tier, combine=False)
+
+
+def job_helper(seed, tier, combine=True):
     """create_multisig_psbt (p2sh) -> serialise -> signer parses and signs -> coordinator combines into its object"""
     from buidl.psbt_helper import create_multisig_psbt
     rec = Rec("create_multisig_psbt p2sh wallets 1-of-2, 2-of-2, 2-of-3 with change; coordinator object combined with each signer's parsed copy, both directions")
@@ -611,13 +615,31 @@ def job_helper(seed, tier):
         if not rec.check("C10.helper.create", st == "ok", {"case": label}, "create_multisig_psbt raised: %s" % (p,)):
             continue
         raw = p.serialize()
-        roundtrip_checks(rec, raw, "helper-created", label)
+        if combine:
+            roundtrip_checks(rec, raw, "helper-created", label)
         wallet = spec_wallet(m, ids)
+        hm = hdpubkey_map(ids)
+        judge(rec, "C11.helper.describe", raw, S.psbt_parse(raw), wallet, hm, {"case": label}, honest=True)
         sst, rev = outcome(S.review, S.psbt_parse(raw), wallet)
         rec.check("C11.helper.review", sst == "ok" and rev["tx_fee_sats"] == 5000 and rev["is_change"] == [False, True],
                   {"case": label, "psbt": b64(raw)}, "spec review of the helper-built PSBT: %s" % (rev,))
+        # C11.4: the builder's own cross-checks (fee, UTXO amount, UTXO hash, change address, input address)
+        def bad(name, edit):
+            kw2 = copy.deepcopy(kw)
+            edit(kw2)
+            got = outcome(create_multisig_psbt, **kw2)
+            rec.check("C11.helper.rejects." + name, got[0] == "raise", {"case": label, "edit": name},
+                      "create_multisig_psbt accepted inconsistent arguments (%s)" % name, key=(label, name))
+        bad("fee-off-by-one", lambda k: k.__setitem__("fee_sats", 5001))
+        bad("utxo-amount-wrong", lambda k: k["input_dicts"][0]["prev_tx_dict"].__setitem__("output_sats", 100001))
+        bad("utxo-hash-wrong", lambda k: k["input_dicts"][0]["prev_tx_dict"].__setitem__("hash_hex", "00" * 32))
+        bad("change-address-foreign", lambda k: k["output_dicts"][1].__setitem__("address", _foreign_spk(2).address(NET)))
+        bad("change-path-wrong", lambda k: k["output_dicts"][1]["path_dict"].__setitem__(xfp(ids[0]), BASE + "/1/1"))
+        bad("change-quorum-wrong", lambda k: k["output_dicts"][1].__setitem__("quorum_m", 2 if m == 1 else 1))
+        bad("input-path-wrong", lambda k: k["input_dicts"][0]["path_dict"].__setitem__(xfp(ids[0]), BASE + "/0/1"))
+        bad("input-quorum-wrong", lambda k: k["input_dicts"][0].__setitem__("quorum_m", 2 if m == 1 else 1))
         base_state = S.psbt_parse(raw)
-        for k, i in enumerate(ids):
+        for k, i in enumerate(ids if combine else []):
             signer = parse(raw)
             signer.sign(root(i))
             sraw = signer.serialize()
